@@ -46,6 +46,10 @@ func runC16(c *core.Ctx) {
 	checkSortComparators(c, "C16/sort-comparator-consistent", cone)
 	c.Note("cone: %d functions, %d map-range loops", len(cone), n)
 	c.Floor("C16/map-order-independent", 3)
+	// a validator placed twice has two places: results that return the unconsumed part of a list must be used
+	shCone := shardingCone(c, [][2]string{{"indexHashedNodesCoordinator", "EpochStartPrepare"}, {"randHashShuffler", "UpdateNodeLists"}})
+	checkValidatorResultsUsed(c, "C16/validator-results-used", shCone)
+	c.Floor("C16/validator-results-used", 10)
 	// the merge loop over epochs ranges over the sorted epoch list, not over the map
 	if fn := anchorM(c, "sharding", "indexHashedNodesCoordinator", "fillPublicKeyToValidatorMap"); fn != nil {
 		pkF := c.P.Field("sharding", "indexHashedNodesCoordinator", "publicKeyToValidatorMap")
